@@ -36,10 +36,19 @@ def main():
         rc0, o0 = sh("/venv/bin/python out_demo/demo.py %s" % wt, cwd=wt, env=env)
         meta["demo_without_change_rc"] = rc0
         rc, out = sh("git apply %s" % patch, cwd=wt)
+        if rc != 0:
+            # the tree has moved on since the change was written: try a three-way merge
+            rc, out = sh("git apply -3 %s && git reset -q" % patch, cwd=wt)
+            meta["applied_with_3way"] = rc == 0
+            if rc == 0:
+                sh("git diff > %s" % os.path.join(wt, "out_demo", "patch.rebased.diff"), cwd=wt)
+                patch = os.path.join(wt, "out_demo", "patch.rebased.diff")
+                with open(patch) as f:
+                    meta["_rebased_patch"] = f.read()
         meta["applies"] = rc == 0
         if rc != 0:
             print("PATCH DOES NOT APPLY", out)
-        rct, ot = sh("/venv/bin/python -m pytest -q -p no:cacheprovider --timeout=900 -x --deselect tests/handlers/test_zip.py::TestVFSZip::test_save_cache 2>&1 | tail -3", cwd=wt)
+        rct, ot = sh("flock /tmp/pgmc-pytest.lock /venv/bin/python -m pytest -q -p no:cacheprovider --timeout=900 -x --deselect tests/handlers/test_zip.py::TestVFSZip::test_save_cache 2>&1 | tail -3", cwd=wt)
         m = re.search(r"(\d+) passed", ot)
         meta["tests_passed_with_change"] = int(m.group(1)) if m else None
         meta["tests_tail"] = ot.strip().splitlines()[-1] if ot.strip() else ""
@@ -53,6 +62,10 @@ def main():
         # several trials can run side by side without touching /repo)
         results = {}
         sh("git checkout -- . ; git clean -fdq -e out_demo", cwd=wt)
+        if meta.get("_rebased_patch"):
+            with open("/tmp/mv-%s.rebased.diff" % sid, "w") as f:
+                f.write(meta["_rebased_patch"])
+            patch = "/tmp/mv-%s.rebased.diff" % sid
         rc, out = sh("git apply %s" % patch, cwd=wt)
         ev = "/tmp/mv-%s-ev" % sid
         cenv = dict(os.environ, PGMC_REPO=wt, PGMC_EVIDENCE_DIR=ev, PGMC_REPLAY_DIR=ev + "/replays")
@@ -76,6 +89,11 @@ def main():
     for f in ("patch.diff", "demo.py", "notes.md"):
         if os.path.exists(os.path.join(src, f)):
             shutil.copy(os.path.join(src, f), os.path.join(dst, f))
+    if meta.get("_rebased_patch"):
+        with open(os.path.join(dst, "patch.diff"), "w") as f:
+            f.write(meta.pop("_rebased_patch"))
+        meta["note"] = "patch.diff was re-based (git apply -3) onto the tree with later fix: commits"
+        sh("rm -f /tmp/mv-%s.rebased.diff" % sid)
     meta["ran"] = "tools/mutant.py: scratch worktree of /repo HEAD (git apply, pytest, demo with/without the change), then PGMC_REPO=<worktree> ./check <id> --tier quick (same code path as against /repo, evidence redirected), worktree removed"
     with open(os.path.join(dst, "meta.json"), "w") as f:
         json.dump(meta, f, indent=1)
